@@ -48,6 +48,9 @@ T0 = _real_dt(2020, 1, 1, tzinfo=timezone.utc)
 BUCKETS = ["A", "B"]
 
 
+FAT = 90000        # payload size of the events of a "fat" history (a few dozen buffered writes exceed SQLite's page cache)
+
+
 def mkds(kind, path):
     from aw_datastore import Datastore
     from aw_datastore.storages import PeeweeStorage, SqliteStorage
@@ -59,22 +62,35 @@ def conn_of(kind, ds):
 
 
 def observe(kind, path):
-    """What a fresh connection finds in the file (after WAL recovery)."""
-    c = sqlite3.connect(path)
+    """What a fresh connection finds in the file (after WAL recovery).  Total: a file that cannot be read as a sound database is
+    an observation too (a store holding one bucket named DAMAGED-FILE, which no prefix of any history explains)."""
+    damaged = {"b": [{"id": "DAMAGED-FILE", "m": "None", "tags": []}], "orph": []}
     try:
-        if kind == "sqlite":
-            bs = c.execute("select rowid,id,name from buckets").fetchall()
-            es = c.execute("select bucketrow,datastr from events").fetchall()
-        else:
-            bs = c.execute("select key,id,name from bucketmodel").fetchall()
-            es = c.execute("select bucket_id,datastr from eventmodel").fetchall()
-    finally:
-        c.close()
+        c = sqlite3.connect(path)
+        try:
+            if [r[0] for r in c.execute("PRAGMA integrity_check").fetchall()] != ["ok"]:
+                return damaged
+            if kind == "sqlite":
+                bs = c.execute("select rowid,id,name from buckets").fetchall()
+                es = c.execute("select bucketrow,datastr from events").fetchall()
+            else:
+                bs = c.execute("select key,id,name from bucketmodel").fetchall()
+                es = c.execute("select bucket_id,datastr from eventmodel").fetchall()
+        finally:
+            c.close()
+    except sqlite3.DatabaseError:
+        return damaged
     key = {r[0]: r[1] for r in bs}
     st = {r[1]: {"m": r[2] or "None", "tags": []} for r in bs}
     orphans = []
     for br, ds_ in es:
-        tag = json.loads(ds_).get("t", -1)
+        try:
+            dd = json.loads(ds_)
+            tag = dd.get("t", -1)
+            if "blob" in dd and dd["blob"] != chr(97 + tag % 26) * FAT:
+                tag = -1          # a payload that no single write produced (torn)
+        except Exception:
+            tag = -1
         if br in key:
             st[key[br]]["tags"].append(tag)
         else:
@@ -104,7 +120,12 @@ def concretise(abstract, rnd):
         o, n = a["op"], a["n"]
         b = rnd.choice(BUCKETS)
         if o == "tick":
-            ops.append({"op": "tick", "d": n})
+            ops.append(dict({"op": "tick", "d": n}, **({"fat": a["fat"]} if "fat" in a else {})))
+            continue
+        if o == "relast":
+            cand = [x for x in BUCKETS if exists[x] and count[x] > 0]
+            if cand:
+                ops.append({"op": "replace_last_blind", "b": rnd.choice(cand)})
             continue
         if o == "bucket":
             if n == 2:
@@ -192,7 +213,17 @@ def concretise(abstract, rnd):
 def random_abstract(rnd):
     """second source of abstract behaviours (same vocabulary as AwDurable's Emit)"""
     out = []
-    mode = rnd.choice(["mixed", "trickle", "slowtrickle", "deletes", "bursts", "upserts", "idlebulk", "reopened"])
+    mode = rnd.choice(["mixed", "trickle", "slowtrickle", "deletes", "bursts", "upserts", "idlebulk", "reopened", "heartbeats"])
+    if mode == "heartbeats":
+        # what a watcher does: one event, then a long run of rewrites of the newest event with no read in between - every
+        # rewrite is an elementary write and counts towards the bound on what a crash may lose
+        out = [{"op": "insert", "n": 1}]
+        if rnd.random() < 0.5:
+            out.append({"op": "read", "n": 0})
+        for _ in range(rnd.choice([55, 70, 110])):
+            out.append({"op": "relast", "n": 1})
+        out.append({"op": "insert", "n": 1})
+        return out
     if mode == "reopened":
         # a store that was written earlier is opened again by a new process and then fed a slow trickle, without any bucket
         # operation or read in between: the age rule must work from the first write on
@@ -260,6 +291,16 @@ def random_abstract(rnd):
     return out[:120]
 
 
+def fat_abstract(rnd):
+    """events with large payloads: a few dozen buffered rewrites / deletions of committed events are more than SQLite's page
+    cache holds, so pages of the open transaction reach the files before the commit decision"""
+    out = [{"op": "tick", "n": 0, "fat": True}, {"op": "insert", "n": rnd.choice([24, 30])}, {"op": "learn", "n": 0}]
+    for _ in range(rnd.choice([20, 30])):
+        out.append({"op": "upsert", "n": rnd.choice([1, 2, 3])} if rnd.random() < 0.8 else {"op": "delete", "n": 1, "blind": True})
+    out.append({"op": "insert", "n": 1})
+    return out
+
+
 # -------------------------------------------------------------------------------------------------
 # execution
 
@@ -277,6 +318,7 @@ class Runner:
         self.kind, self.path = kind, path
         self.seq = 0
         self.tag = 0
+        self.fat = False
         self.migrated = None
         if migrate_n is not None:
             from aw_datastore import Datastore
@@ -300,7 +342,10 @@ class Runner:
     def ev(self):
         self.seq += 1
         self.tag += 1
-        return self.Event(timestamp=T0 + timedelta(seconds=self.seq), duration=1, data={"t": self.tag}), self.tag
+        data = {"t": self.tag}
+        if self.fat:
+            data["blob"] = chr(97 + self.tag % 26) * FAT
+        return self.Event(timestamp=T0 + timedelta(seconds=self.seq), duration=1, data=data), self.tag
 
     def run(self, ops, on_stmt=None, log=None):
         """Execute; on_stmt(k, opindex, sql) is called before the k-th SQL statement runs."""
@@ -344,6 +389,8 @@ class Runner:
             try:
                 if o == "tick":
                     FakeDT.off += timedelta(seconds=op["d"])
+                    if "fat" in op:
+                        self.fat = op["fat"]
                 elif o == "create":
                     ds.create_bucket(b, "t", "c", "h", name=op["m"])
                     w = [{"k": "bcreate", "b": b, "m": op["m"]}]
@@ -572,7 +619,12 @@ def record_history(kind, ops, root, rnd, nkills):
             for suf in ("", "-wal"):
                 if os.path.exists(real_dbp + suf):
                     shutil.copyfile(real_dbp + suf, os.path.join(d, "c.db" + suf))
-            stm.append((k, opi, sql.split()[0].upper() if sql.split() else "?"))
+            st = None
+            if rn.fat:
+                # large files: observed at once, the copy is not kept
+                st = observe(kind, os.path.join(d, "c.db"))
+                shutil.rmtree(d)
+            stm.append((k, opi, sql.split()[0].upper() if sql.split() else "?", st))
 
         log = []
         rn.run(ops, on_stmt, log)
@@ -584,8 +636,8 @@ def record_history(kind, ops, root, rnd, nkills):
     log, stm = res["log"], res["stm"]
     final = observe(kind, real_dbp)
     obs = []
-    for k, opi, verb in stm:
-        obs.append({"k": k, "op": opi, "how": "files-at-statement", "st": observe(kind, os.path.join(snapdir, str(k), "c.db"))})
+    for k, opi, verb, st in stm:
+        obs.append({"k": k, "op": opi, "how": "files-at-statement", "st": st if st is not None else observe(kind, os.path.join(snapdir, str(k), "c.db"))})
     shutil.rmtree(snapdir)
     # real SIGKILL at a sample of statements (first, last, and random ones)
     ks = sorted({s[0] for s in stm})
